@@ -111,7 +111,7 @@ func c11Gen(r *vu.RNG, n int, emit func(string)) {
 		for i := range parts {
 			parts[i] = vu.X(uint64(i & 0xff))
 		}
-		emit("enc sl(u8) [" + strings.Join(parts, ",") + "]")
+		emit("enc sl(nm(u8)) [" + strings.Join(parts, ",") + "]")
 	}
 	for _, d := range svuTable {
 		if svuParseTy(d).kind == svuSt {
